@@ -857,8 +857,13 @@ func (p *parser) parseClauses(fc *FuncContract) error {
 			if b, ok := e.(*EBin); ok && b.Op == "==>" {
 				rhs = b.R
 			}
+			if eq, ok := rhs.(*EBin); ok && eq.Op == "==" { // result == ghostFunc(args): names the result
+				if _, isCall := eq.R.(*ECall); isCall {
+					rhs = eq.R
+				}
+			}
 			if _, ok := rhs.(*ECall); !ok {
-				return p.errf("establishes must have the form [cond ==>] ghostPred(args)")
+				return p.errf("establishes must have the form [cond ==>] ghostPred(args) or result == ghostFunc(args)")
 			}
 			fc.Clauses = append(fc.Clauses, &Clause{Kind: "establishes", E: e, Props: props, Label: label, Text: p.textSince(start)})
 		case "requires", "ensures":
